@@ -3,6 +3,7 @@ mod level_drv;
 mod model;
 mod queue_drv;
 mod sched;
+mod snap_drv;
 mod uuid_drv;
 
 use serde_json::Value;
@@ -24,7 +25,9 @@ fn write_lines(path: &str, lines: &[String]) {
 }
 
 fn main() {
-    std::panic::set_hook(Box::new(|_| {}));
+    if std::env::var("PLV_PANIC").is_err() {
+        std::panic::set_hook(Box::new(|_| {}));
+    }
     let args: Vec<String> = std::env::args().collect();
     if args.len() < 2 {
         eprintln!("usage: plv <level> <scenarios.ndjson> <trace.ndjson> [meta.json]");
@@ -44,6 +47,17 @@ fn main() {
             let mut lines = vec![];
             for sc in &scs {
                 lines.extend(grid_drv::run(sc));
+            }
+            write_lines(&args[3], &lines);
+            if args.len() > 4 {
+                std::fs::write(&args[4], "[]").unwrap();
+            }
+        }
+        "snap" => {
+            let scs = read_ndjson(&args[2]);
+            let mut lines = vec![];
+            for (i, sc) in scs.iter().enumerate() {
+                lines.extend(snap_drv::run(sc, i));
             }
             write_lines(&args[3], &lines);
             if args.len() > 4 {
